@@ -22,9 +22,13 @@ LEAN = dict(
         "sync_create_dataset",
         "sync_delete",
         "sync_reopen",
+        "sync_copy",
+        "sync_move",
         "cache_coherent",
-        "sync_step_partial",
-        "sync_run_partial",
+        "sync_step",
+        "sync_run",
+        "sync_reachable",
+        "sync_step_needs_names",
         "env3_wf",
         "hist1_obj",
     )],
